@@ -4,7 +4,7 @@
     document and the auto-submit form / redirect query return these values to a parser (Codec.XmlEscape, Codec.HtmlEsc,
     Codec.QueryEscape round trips); IDs and instants are supplied by the runtime and checked by the harness. *)
 From Saml Require Import Xml.SchemaTypes Xml.Schema Gen.Schema Xml.SamlSpec.
-From Saml Require Import Idp.BuilderTypes Idp.Builder Idp.BuiltDoc.
+From Saml Require Import Idp.BuilderTypes Idp.Builder Idp.BuiltDoc Idp.GetSamlAll Idp.SuccessAny.
 From Saml Require Import Base.Bytes Idp.FactTypes Gen.Facts Idp.Callback Idp.Deliver Core.Attrs Proofs.CallbackProofs
   Codec.QueryEscape Codec.XmlEscape Codec.HtmlEsc.
 
@@ -105,6 +105,27 @@ Theorem C03_built_attributes : forall email full given sur userid username fr is
     Some (DObj "saml.NameIDType" [("Format"%string, DStr (b "urn:oasis:names:tc:SAML:1.1:nameid-format:emailAddress")); ("Text"%string, DStr username)], fr).
 Proof. exact getsaml_standard. Qed.
 
+(** ... for ANY number of custom attributes (induction over the list the map is ranged over; the loop of the builder program
+    uses no fuel per element): the standard attributes as above, then one attribute per custom attribute carrying its name,
+    friendly name, name format and values, in that order; nothing else *)
+Theorem C03_built_attributes_any_custom : forall email full given sur userid username (cs : list dcustom) fr issue until,
+  built_value "GetSAML" (Some (attributes_rec email full given sur userid username (map custom_dpair cs))) [] fr issue until =
+    Some (DList (std_attr "Email" email ++ std_attr "SurName" sur ++ std_attr "FirstName" given ++ std_attr "FullName" full ++
+                 std_attr "UserName" username ++ std_attr "UserID" userid ++ map custom_dattr cs), fr).
+Proof. exact getsaml_any. Qed.
+
+(** ... and that list is the attribute statement of the assertion inside the successful Response, again for any number of
+    custom attributes: the builder programs of makeSuccessfulResponse / makeAssertionResponse / makeAssertion are stepped
+    through symbolically down to the GetSAML call (Idp/SuccessAny.v) *)
+Theorem C03_attribute_statement_any_custom : forall reqid acs issuer audience email full given sur userid username (cs : list dcustom) id1 id2 rest issue until,
+  built_sat "makeSuccessfulResponse" (Some (response_rec reqid acs issuer audience))
+    [attributes_rec email full given sur userid username (map custom_dpair cs); DStr (b "f"); DNil] (id1 :: id2 :: rest) issue until
+    (fun d r => r = rest /\
+       dget d [PField "Assertion"; PField "AttributeStatement"; PIndex 0; PField "Attribute"] =
+       Some (DList (std_attr "Email" email ++ std_attr "SurName" sur ++ std_attr "FirstName" given ++ std_attr "FullName" full ++
+                    std_attr "UserName" username ++ std_attr "UserID" userid ++ map custom_dattr cs))).
+Proof. exact success_attributes_any. Qed.
+
 Print Assumptions C03_fields.
 Print Assumptions C03_attributes.
 Print Assumptions C03_wire_xml.
@@ -114,3 +135,5 @@ Print Assumptions C03_delivery_from_source.
 Print Assumptions C03_schema.
 Print Assumptions C03_built_response.
 Print Assumptions C03_built_attributes.
+Print Assumptions C03_built_attributes_any_custom.
+Print Assumptions C03_attribute_statement_any_custom.
